@@ -32,6 +32,7 @@ func init() {
 		Assumptions: []string{"interleavings are explored at hook granularity", "races are only reported for accesses the stress actually made concurrent"},
 		Engines: []*core.Engine{
 			{Name: "m1/streams", Count: core.FixedCount(18000, 600000), Run: conc.RunC06M1, CPULimit: 60},
+			{Name: "m1/exhaustive-tiny-streams", Count: core.FixedCount(9, 9), Run: conc.RunC06Exhaustive, CPULimit: 1800},
 			{Name: "m3/race-streams", Count: core.FixedCount(90, 720), Run: conc.RunC06M3, Race: true, MaxWorkers: 4, CPULimit: 900},
 		},
 	})
